@@ -36,6 +36,9 @@ def main():
         print('/repo is not clean:', out); return 1
     rc, out = sh('git -C /repo apply %s' % patch)
     caught = {}
+    save = '/tmp/seeded_evidence_save'
+    shutil.rmtree(save, ignore_errors=True)
+    shutil.copytree('/verif/evidence', save)          # evidence written against a changed tree is never kept
     try:
         for chk in checks:
             rc, out = sh('bin/check %s quick' % chk, '/verif')
@@ -43,6 +46,9 @@ def main():
             caught[chk] = dict(exit=rc, lines=lines[-4:])
     finally:
         sh('git -C /repo checkout -- .')
+        shutil.rmtree('/verif/evidence', ignore_errors=True)
+        shutil.copytree(save, '/verif/evidence')
+        shutil.rmtree(save, ignore_errors=True)
     res['checks'] = caught
     d = os.path.join('/verif/seeded', name)
     os.makedirs(d, exist_ok=True)
